@@ -50,6 +50,7 @@ func rulesC11(c *Ctx) {
 	ruleC11Fold(c)
 	// the value the literal "" is compared with: an empty string stored in the database decodes as "", not as null
 	c.As("C13.NIL", "C11.EMPTYDECODE", func() { ruleC13Nil(c) })
+	ruleLiteralNotRecast(c, "C11.NORECAST")
 	// --- grammar table -------------------------------------------------------------------
 	g4, err := os.ReadFile(filepath.Join(p.Root, "zitiql", "ZitiQl.g4"))
 	if err != nil {
